@@ -72,7 +72,10 @@ def parseCase (op : String) : Option Case :=
   (op.splitOn ";").foldlM (init := ({} : Case)) fun c f =>
     match kv f with
     | some ("lim", v) => v.toNat?.map fun n => { c with lim := n }
-    | some ("end", v) => if v == "eof" then some { c with e := .eof } else if v == "stall" then some { c with e := .stall } else none
+    | some ("end", v) =>
+      -- `eofd` (last data together with io.EOF in one Read) is the peer closing: same model, same spec
+      if v == "eof" || v == "eofd" then some { c with e := .eof } else if v == "stall" then some { c with e := .stall } else none
+    | some ("z", _) => some c   -- empty chunks delivered as (0, nil) reads: same model, same spec
     | some ("rb", _) => some c
     | some ("k", _) => some c
     | some ("ip", v) => (parseIpTable v).map fun t => { c with tbl := t }
@@ -87,13 +90,22 @@ def run (op impl : String) : Ans :=
     let env := envOf c.tbl
     let m := connRun env c.stream c.lim c.e
     let (exp, cls) := specExpect env c.stream c.lim
+    -- round 3: `bal=` (BalancerAddr = socket peer exactly when a virtual address is reported), `st=1` (addresses
+    -- unchanged after all reads), `rc=ok` (Read's (n, err) contract), `co=1` (the interleaved companion connection
+    -- got its own header and payload)
+    let tailOf (dstNone : Bool) : String := " bal=" ++ (if dstNone then "nil" else "sock") ++ " st=1 rc=ok co=1"
+    let (ibase, itail) := match impl.splitOn " bal=" with
+      | [b, t] => (b, " bal=" ++ t)
+      | _ => (impl, "")
     let verdict :=
-      match parseObs impl with
+      match parseObs ibase with
       | none => "FAIL:unparsable-result"
       | some o =>
         -- a header limit below the 16-byte v2 prefix is a misconfiguration outside the property's quantifier
         if startsWith c.stream sigV2 && decide (effLimit c.lim < 16) then "skip"
-        else if judge exp o c.stream c.lim c.e then "ok" else "FAIL:" ++ cls
+        else if !judge exp o c.stream c.lim c.e then "FAIL:" ++ cls
+        else if itail != tailOf o.dst.isNone then "FAIL:conn-contract"
+        else "ok"
     let nt := startsWith c.stream sigV1 || startsWith c.stream sigV2
     let over : Bool := match exp with
       | .accept _ _ n => decide (n > effLimit c.lim)
@@ -101,7 +113,7 @@ def run (op impl : String) : Ans :=
       | _ => false
     let expTag := match exp with
       | .pass => "x-pass" | .accept .. => "x-accept" | .acceptSock _ => "x-sock" | .either _ => "x-either" | .reject => "x-reject"
-    { model := renderObs m
+    { model := renderObs m ++ tailOf m.dst.isNone
       verdict := verdict
       tags := [cls, expTag, if c.e == .eof then "eof" else "stall", if c.nchunks > 1 then "split" else "whole"]
               ++ (if over then ["over-limit"] else []) ++ (if m.closed then ["m-closed"] else ["m-open"])
